@@ -329,9 +329,70 @@ fn special_coords(r: &mut Rng) -> Vec<Vec<[f64; 2]>> {
     (0..np).map(|_| (0..n).map(|_| [*r.pick(&sp), *r.pick(&sp)]).collect()).collect()
 }
 
+// ----- large single polygons (child process per case): recursion depth, allocation, long back-chains
+
+/// `parab`: the region below y = x^2, 0 <= x <= m, above y = -1, closed by the single End vertex (m+1, -1): all m+1
+/// vertices of the top chain are reflex and stay on the back-chain until the End vertex sees them all (one fan of
+/// m+1 triangles). `sine`: the region under one period of a sine of amplitude 10^6 sampled at m points.
+/// `zig`: a zig-zag strip (alternating convex/reflex bends, fans of length 1).
+pub fn big_polygon(kind: &str, m: usize) -> Vec<[f64; 2]> {
+    let mut v: Vec<[f64; 2]> = vec![];
+    match kind {
+        "parab" => { v.push([0.0, -1.0]); v.push([(m + 1) as f64, -1.0]); for i in (0..=m).rev() { v.push([i as f64, (i * i) as f64]); } }
+        "sine" => { v.push([0.0, -1.0]); v.push([(m - 1) as f64, -1.0]); for i in (0..m).rev() { let y = (1.0e6 * (2.0 * std::f64::consts::PI * i as f64 / m as f64).sin()).round() + 1.0e6; v.push([i as f64, y]); } }
+        _ => { for i in 0..m { v.push([i as f64, if i % 2 == 0 { 0.0 } else { 1.0 }]); } for i in (0..m).rev() { v.push([i as f64, if i % 2 == 0 { 10.0 } else { 11.0 }]); } }
+    }
+    v
+}
+
+pub fn big_child(kind: &str, m: usize) {
+    let poly = big_polygon(kind, m);
+    let h = std::thread::Builder::new().stack_size(2 << 20).spawn(move || {
+        let out = run_impl(&[poly]);
+        match out {
+            TOut::Ok(ts) => {
+                let q = |x: f64| x as i128;
+                let a2: i128 = ts.iter().map(|t| ((q(t[1][0]) - q(t[0][0])) * (q(t[2][1]) - q(t[0][1])) - (q(t[1][1]) - q(t[0][1])) * (q(t[2][0]) - q(t[0][0]))).abs()).sum();
+                println!("ok {} {}", ts.len(), a2);
+            }
+            other => println!("{}", other.wire()),
+        }
+    }).expect("spawn");
+    if h.join().is_err() { println!("panic"); }
+}
+
+fn run_big(rep: &Mutex<Report>, counts: &Counts, thorough: bool) {
+    let exe = match std::env::current_exe() { Ok(e) => e, Err(_) => return };
+    let sizes: &[usize] = if thorough { &[3000, 12000, 40000, 120000] } else { &[3000, 12000, 40000] };
+    for kind in ["parab", "sine", "zig"] {
+        for &m in sizes {
+            let poly = big_polygon(kind, m);
+            let n = poly.len();
+            let q = |x: f64| x as i128;
+            let shoe: i128 = (0..n).map(|i| { let (a, b) = (poly[i], poly[(i + 1) % n]); q(a[0]) * q(b[1]) - q(a[1]) * q(b[0]) }).sum();
+            let input = format!("tribig {} {} ({} vertices)", kind, m, n);
+            let out = std::process::Command::new(&exe).arg("tribig").arg(kind).arg(m.to_string()).output();
+            { let mut r = rep.lock().unwrap(); r.cases += 1; r.nontrivial += 1; r.count(&format!("gen:big-{}", kind)); }
+            counts.valid.fetch_add(1, Ordering::Relaxed);
+            match out {
+                Ok(o) if o.status.success() => {
+                    let txt = String::from_utf8_lossy(&o.stdout).trim().to_string();
+                    let want = format!("ok {} {}", n - 2, shoe.abs());
+                    if txt == want { counts.valid_ok.fetch_add(1, Ordering::Relaxed); }
+                    else if txt.starts_with("ok") { counts.bad_tiling.fetch_add(1, Ordering::Relaxed); rep.lock().unwrap().finding("oracle", &["C03"], "not-a-tiling", input, format!("got `{}` want `{}` (count, doubled area)", txt, want)); }
+                    else if txt == "panic" { counts.panics.fetch_add(1, Ordering::Relaxed); rep.lock().unwrap().finding("oracle", &["C15"], "panic-large-input", input, txt); }
+                    else { counts.valid_rejected.fetch_add(1, Ordering::Relaxed); rep.lock().unwrap().finding("oracle", &["C04"], "valid-rejected", input, txt); }
+                }
+                Ok(o) => { counts.panics.fetch_add(1, Ordering::Relaxed); rep.lock().unwrap().finding("oracle", &["C15"], "process-aborted", input, format!("{:?}: {}", o.status, String::from_utf8_lossy(&o.stderr).lines().last().unwrap_or("").chars().take(200).collect::<String>())); }
+                Err(e) => { rep.lock().unwrap().notes.push(format!("could not spawn the child for {}: {}", input, e)); }
+            }
+        }
+    }
+}
+
 pub fn run(o: &Opts) -> Report {
     let rep = Mutex::new(Report::new("tri"));
-    rep.lock().unwrap().rule = "EXHAUSTIVE: every vertex sequence (repeats, collinear, self-intersecting included) of 3..N points on the 4x4 integer lattice as a single polygon (N=6: 17.9M sequences, both tiers); plus structured valid sets (L, U, plus, T, comb, spiral, star, zigzag, rectangles with holes, holes with islands to depth 4, side-by-side components) under all dihedral maps, integer scalings/shears/translations, reversals, start-vertex rotations and polygon permutations; random multi-polygon soups on lattices up to 10x10; star-shaped polygons; stacked bands of 5..10 small polygons on a 12-wide lattice (up to 20 simultaneously active edges, many shared abscissae); exact axis-wise affine images v*2^e + t (e in -60..60 per axis incl. aspect ratios 2^45..2^120, translations up to 2^45 steps; the answer is mapped back exactly and judged on the lattice); zeros written as -0.0; NaN/inf/-0/subnormal/1e300 coordinates; empty and short inputs; two fixed overflow inputs (known findings). Non-trivial = passes input validation (>= 3 distinct finite vertices per polygon); distinct by construction of the enumeration".into();
+    rep.lock().unwrap().rule = "EXHAUSTIVE: every vertex sequence (repeats, collinear, self-intersecting included) of 3..N points on the 4x4 integer lattice as a single polygon (N=6: 17.9M sequences, both tiers); plus structured valid sets (L, U, plus, T, comb, spiral, star, zigzag, rectangles with holes, holes with islands to depth 4, side-by-side components) under all dihedral maps, integer scalings/shears/translations, reversals, start-vertex rotations and polygon permutations; random multi-polygon soups on lattices up to 10x10; star-shaped polygons; stacked bands of 5..10 small polygons on a 12-wide lattice (up to 20 simultaneously active edges, many shared abscissae); exact axis-wise affine images v*2^e + t (e in -60..60 per axis incl. aspect ratios 2^45..2^120, translations up to 2^45 steps; the answer is mapped back exactly and judged on the lattice); zeros written as -0.0; NaN/inf/-0/subnormal/1e300 coordinates; empty and short inputs; single polygons of 3 000..40 000 (thorough: 120 000) vertices, each in a child process on a 2 MiB stack: a reflex parabola cap (one fan of n-2 triangles), the region under a sine period, a zig-zag strip, judged by triangle count and exact doubled area; fixed overflow inputs (known findings). Non-trivial = passes input validation (>= 3 distinct finite vertices per polygon); distinct by construction of the enumeration".into();
     let counts = Counts::default();
     if let Some(t) = &o.replay {
         // single input: `cavh tri --replay "[[[x,y],...],...]"` prints the implementation's answer and judges it
@@ -477,6 +538,7 @@ pub fn run(o: &Opts) -> Report {
         if crossing { counts.crossing.fetch_add(1, Ordering::Relaxed); } else { counts.valid.fetch_add(1, Ordering::Relaxed); if matches!(out, TOut::Ok(_)) { counts.valid_ok.fetch_add(1, Ordering::Relaxed); } }
         if rng.chance(0.1) { model_reqs.lock().unwrap().push((request(&polys), out.wire(), text(&polys))); }
     }
+    run_big(&rep, &counts, o.thorough);
     extra.push(("empty", vec![]));
     extra.push(("empty-poly", vec![vec![]]));
     for (name, polys) in &extra {
